@@ -42,7 +42,7 @@ type c09Scen struct {
 	AddRoute   bool        `json:"admin_adds_route"`
 }
 
-var c09URLs = []string{"/a/x", "/a/y", "/a/y/7", "/b/z", "/a/none", "/a/y/7/", "/a/x/", "/a/y/7/extra/", "/a/y/"}
+var c09URLs = []string{"/a/x", "/a/y", "/a/y/7", "/b/z", "/a/none", "/a/y/7/", "/a/x/", "/a/y/7/extra/", "/a/y/", "/a/v1.0/items", "/a/v1x0/items", "/a/v1.0/items/", "/b/z+z", "/b/zzz"}
 
 func genC09(x *Ctx) *c09Scen {
 	tp := x.Tape
@@ -171,12 +171,16 @@ func c09BuildOpt(sc *c09Scen, byID map[int]*c09Req, extraRoute bool, withCORS bo
 	wsA.Route(wsA.POST("/x").To(h("POST /a/x")))
 	wsA.Route(wsA.GET("/y").To(h("GET /a/y")))
 	wsA.Route(wsA.DELETE("/y/{id}").To(h("DELETE /a/y/{id}")))
+	// literal segments with regular-expression meta characters
+	wsA.Route(wsA.GET("/v1.0/items").To(h("GET /a/v1.0/items")))
+	wsA.Route(wsA.PUT("/v1.0/items").To(h("PUT /a/v1.0/items")))
 	if extraRoute {
 		wsA.Route(wsA.PUT("/x").To(h("PUT /a/x")))
 	}
 	wsB := new(restful.WebService).Path("/b")
 	wsB.Route(wsB.PUT("/z").To(h("PUT /b/z")))
 	wsB.Route(wsB.GET("/z").To(h("GET /b/z")))
+	wsB.Route(wsB.POST("/z+z").To(h("POST /b/z+z")))
 	c.Add(wsA)
 	c.Add(wsB)
 	return &c09World{c: c, wsA: wsA}
